@@ -1,5 +1,7 @@
 package otr3
 
+import "strings"
+
 // the longest question that fits into an SMP TLV next to its terminator, the MPI count and six
 // MPIs of at most 192 bytes
 const maxSMPQuestionLength = 0xffff - 1 - 4 - 6*(4+192)
@@ -8,6 +10,12 @@ const maxSMPQuestionLength = 0xffff - 1 - 4 - 6*(4+192)
 // The authentication uses an optional question message and a shared secret. The authentication will proceed
 // until the event handler reports that SMP is complete, that a secret is needed or that SMP has failed.
 func (c *Conversation) StartAuthenticate(question string, mutualSecret []byte) ([]ValidMessage, error) {
+	if strings.IndexByte(question, 0) >= 0 {
+		// the question is written NUL terminated: the peer would read a shorter question and
+		// then fail to read the numbers that follow
+		return nil, newOtrError("question must not contain a NUL byte")
+	}
+
 	if len(question) > maxSMPQuestionLength {
 		// the question travels in a TLV, whose length field has 16 bits
 		return nil, newOtrError("question too long for a TLV")
